@@ -329,7 +329,9 @@ def check(col, prog, tier, profile, fixture=None):
         else:
             col.violation("A2" + sfx, "%s|writes-only-swap" % fk(shuffle), shuffle.loc(), "shuffle writes the slice other than by swapping two positions: the result need not be a rearrangement of the input")
         rngok = False
+        v_rng, v_shape = [], []   # one verdict per round of the loop (path through its body): all must hold
         for st in backs:
+            rngok = shape_ok = False
             rng_iter = [v for v in st.env.values() if isinstance(v, tuple) and v and v[0] == "rangeiter"]
             evs = st.event_list()
             sw = [e for e in evs if e.kind == "call" and e.extra.get("name") == "swap"]
@@ -361,6 +363,9 @@ def check(col, prog, tier, profile, fixture=None):
                 j = sw[0].args[2]
                 a = nx[0].args[1]
                 shape_ok = i[0] == "elem" and j == nx[0].res and a == ("rangeincl", mk_int(0), i) and len(sw) == 1 and len(nx) == 1
+            v_rng.append(bool(rngok))
+            v_shape.append(bool(shape_ok))
+        rngok, shape_ok = bool(v_rng) and all(v_rng), bool(v_shape) and all(v_shape)
         if rngok:
             col.ok("A2" + sfx, shuffle.loc(), "%s|loop-1..len" % fk(shuffle), "i ranges over 1..len")
         else:
